@@ -419,3 +419,7 @@ mod tests {
         assert_eq!(it.next(), None);
     }
 }
+
+#[cfg(all(test, pendulum_project_ntpd_rs_verif))]
+#[path = "/verif/harness/statime-wire/hook_common__tlv.rs"]
+mod verif_hook;
